@@ -3,6 +3,7 @@ import RactorModel.Lemmas.LifeC04
 import RactorModel.Lemmas.LifeWorld
 import RactorModel.Lemmas.LifeResidue
 import RactorModel.Lemmas.LifeDelivery
+import RactorModel.Lemmas.LifeC04Spec
 
 /-!
 # C04 — Failures are contained and reported to the supervisor exactly once
@@ -183,6 +184,58 @@ example : traceNoSnap 5 [.spawnInstant (some 3) none true false, .send 1, .link 
 /-- Non-vacuity: a kill before the start task's first poll. -/
 example : traceNoSnap 5 [.spawnInstant none none true false, .kill, .pollSpawn true, .send 2] =
     [.instant, .killRet false true, .spawnRet .killed, .sendRet false 2 false] := by decide
+
+/-- **`ActorStarted` exactly once iff `post_start` returned Ok — the positive half, trace level.**
+In an accepted trace: if `post_start` returns ok (`exit post_start ok` after the prefix `p`) while a supervisor
+`q` is observed (`observedSup p = some q`), then before any further callback is entered and before any terminal
+event is emitted, `ActorStarted` has been emitted (`mid` = what lies between that `exit` and the next such event
+`e`; `post_start` returns once). Together with the clauses "at most once", "only right after `exit post_start
+ok`", "to the observed supervisor" of `reported_once` this is: exactly once, iff `post_start` succeeded. -/
+theorem started_is_emitted (me : Nat) (tr p mid r : List Ev) (e : Ev) (q : Nat)
+    (h : Life.C04.ok me tr = true)
+    (hsplit : tr = p ++ .exit .postStart .ok :: (mid ++ e :: r))
+    (hsup : Life.C04.observedSup p none = some q)
+    (hone : ∀ x ∈ mid, x ≠ .exit .postStart .ok)
+    (he : Life.C04.needsStarted e = true) :
+    ∃ x ∈ mid, Life.C04.isStartedEmit x = true := by
+  obtain ⟨s, hs⟩ := Life.C04.ok_iff.mp h
+  subst hsplit
+  obtain ⟨s1, h1, h2⟩ := Life.C01.accepts_append_inv _ p _ hs
+  rw [accepts_cons] at h2
+  cases hn : Life.C04.next me s1 (.exit .postStart .ok) with
+  | error c => simp [hn] at h2
+  | ok s2 =>
+    simp only [hn] at h2
+    obtain ⟨s3, h3, h4⟩ := Life.C01.accepts_append_inv _ mid _ h2
+    have hms : s2.mustStart = true := by
+      rw [Life.C04.next_exit_postStart hn, Life.C04.accepts_sup h1]
+      show (Life.C04.observedSup p none).isSome = true
+      rw [hsup]; rfl
+    -- by contradiction: if no `ActorStarted` in `mid`, `mustStart` is still up at `e`
+    cases hall : mid.all (fun x => !Life.C04.isStartedEmit x) with
+    | false =>
+      simp only [List.all_eq_false] at hall
+      obtain ⟨x, hx, hxs⟩ := hall
+      exact ⟨x, hx, by simpa using hxs⟩
+    | true =>
+      exfalso
+      have hno : ∀ x ∈ mid, Life.C04.isStartedEmit x = false ∧ x ≠ .exit .postStart .ok := by
+        intro x hx
+        have := (List.all_eq_true.mp hall) x hx
+        exact ⟨by simpa using this, hone x hx⟩
+      obtain ⟨hm3, _⟩ := Life.C04.accepts_mustStart h3 hms hno
+      rw [accepts_cons] at h4
+      cases hn4 : Life.C04.next me s3 e with
+      | error c => simp [hn4] at h4
+      | ok s4 =>
+        by_cases hse : Life.C04.isStartedEmit e = true
+        · cases e <;> simp [Life.C04.isStartedEmit] at hse
+          rename_i to x
+          cases x <;> simp [Life.C04.needsStarted, SupEv.isTerminal] at he hse
+        · by_cases hex : e = .exit .postStart .ok
+          · subst hex; simp [Life.C04.needsStarted] at he
+          · have := ((Life.C04.next_fields hn4).2 hm3 (by simpa using hse) hex).2
+            rw [this] at he; cases he
 
 /-! ### Round 4: delivery and frame in the composed world
 
@@ -399,6 +452,7 @@ end C04
 #print axioms C04.failed_spawn_leaves_nothing
 #print axioms C04.instant_kill_before_start
 #print axioms C04.instant_start_never_refused
+#print axioms C04.started_is_emitted
 #print axioms C04.relink_silent
 #print axioms C04.relink_target
 #print axioms C04.emitted_is_delivered
